@@ -121,3 +121,180 @@ package hotkey
 //@   modifies c.items, c.freqHead, latchedkeys
 //@   ghostdef forall k string :: has(latchedkeys, k) == (old(has(latchedkeys, k)) || old(has(c.items, k)))
 //@   ensures @reports-the-tracked-keys result != nil && forall k string :: has(result, k) ==> old(has(c.items, k))
+
+// exact pointer effects of the list primitives (the counter-level invariant is proved on top of them)
+
+//@ func (*itemNode).Free
+//@   prop C19
+//@   flag strict-nil
+//@   let f = n.freqNode
+//@   let h = n.freqNode.itemHead
+//@   let t = n.freqNode.itemTail
+//@   let p = n.prev
+//@   let x = n.next
+//@   let ca = n.freqNode.itemHead == n.freqNode.itemTail
+//@   let cb = n.freqNode.itemHead != n.freqNode.itemTail && n.freqNode.itemHead == n
+//@   let cc = n.freqNode.itemHead != n.freqNode.itemTail && n.freqNode.itemHead != n && n.freqNode.itemTail == n
+//@   let cd = n.freqNode.itemHead != n.freqNode.itemTail && n.freqNode.itemHead != n && n.freqNode.itemTail != n
+//@   requires n != nil && n.freqNode != nil && n.prev != n && n.next != n
+//@   requires @neighbours-present (cb ==> x != nil) && (cc ==> p != nil) && (cd ==> p != nil && x != nil)
+//@   modifies f.itemHead, f.itemTail, n.prev, n.next, n.freqNode, p.next, x.prev
+//@   ensures @detached n.prev == nil && n.next == nil && n.freqNode == nil
+//@   ensures @node-ends f.itemHead == ite(ca, nil, ite(cb, x, h)) && f.itemTail == ite(ca, nil, ite(cc, p, t))
+//@   ensures @neighbours-relinked (p != nil ==> p.next == ite(cc, nil, ite(cd, x, old(p.next)))) && (x != nil ==> x.prev == ite(cb, nil, ite(cd, p, old(x.prev))))
+
+//@ func (*freqNode).AppendItem
+//@   prop C19
+//@   flag strict-nil
+//@   let h = n.itemHead
+//@   let t = n.itemTail
+//@   requires n != nil && item != nil && (n.itemHead != nil ==> n.itemTail != nil && n.itemTail != item)
+//@   modifies item.freqNode, n.itemHead, n.itemTail, item.prev, item.next, t.next, ipos, iat
+//@   ghostdef forall x loc :: ipos[x] == ite(x == item, ite(n.itemHead == nil, 0, old(ipos[n.itemTail]) + 1), old(ipos[x]))
+//@   ghostdef forall f loc, p int :: iat[f][p] == ite(f == n && p == ite(n.itemHead == nil, 0, old(ipos[n.itemTail]) + 1), item, old(iat[f][p]))
+//@   ensures @attached item.freqNode == n && n.itemTail == item
+//@   ensures @first-item h == nil ==> n.itemHead == item && item.prev == old(item.prev) && item.next == old(item.next)
+//@   ensures @appended h != nil ==> n.itemHead == h && item.prev == t && item.next == nil && t.next == item
+
+//@ func (*freqNode).PopItem
+//@   prop C19
+//@   flag strict-nil
+//@   let h = n.itemHead
+//@   let t = n.itemTail
+//@   let x = n.itemHead.next
+//@   requires n != nil && (n.itemHead != nil && n.itemHead != n.itemTail ==> n.itemHead.next != nil)
+//@   modifies n.itemHead, n.itemTail, x.prev
+//@   ensures @head-returned result == h
+//@   ensures @empty-stays-empty h == nil ==> n.itemHead == nil && n.itemTail == t
+//@   ensures @last-item h != nil && h == t ==> n.itemHead == nil && n.itemTail == nil
+//@   ensures @head-advanced h != nil && h != t ==> n.itemHead == x && n.itemTail == t && x.prev == nil
+
+//@ func (*freqNode).InsertBeforeMe
+//@   prop C19
+//@   flag strict-nil
+//@   let p = n.prev
+//@   requires n != nil && o != nil && o != n && n.prev != o && n.prev != n
+//@   modifies p.next, o.prev, o.next, n.prev
+//@   ensures @linked (p != nil ==> p.next == o) && o.prev == p && o.next == n && n.prev == o
+
+//@ func (*freqNode).InsertAfterMe
+//@   prop C19
+//@   flag strict-nil
+//@   let x = n.next
+//@   requires n != nil && o != nil && o != n && n.next != o && n.next != n
+//@   modifies o.next, x.prev, n.next, o.prev
+//@   ensures @linked o.next == x && (x != nil ==> x.prev == o) && n.next == o && o.prev == n
+
+//@ func (*freqNode).Free
+//@   prop C19
+//@   flag strict-nil
+//@   let p = n.prev
+//@   let x = n.next
+//@   requires n != nil && n.prev != n && n.next != n
+//@   modifies p.next, x.prev, n.prev, n.next, n.itemHead, n.itemTail
+//@   ensures @unlinked (p != nil ==> p.next == x) && (x != nil ==> x.prev == p) && n.prev == nil && n.next == nil && n.itemHead == nil && n.itemTail == nil
+
+// the counter: every operation keeps the LFU structure well formed (cwf, /verif/spec/hotkey.gospec)
+
+//@ func (*Counter).reset
+//@   prop C19
+//@   flag strict-nil
+//@   requires c != nil
+//@   modifies c.items, c.freqHead
+//@   ensures @emptied c.items != nil && fresh(c.items) && len(c.items) == 0 && c.freqHead == nil && forall k string :: !has(c.items, k)
+//@   ensures @well-formed cwf(c)
+
+//@ func (*Counter).add
+//@   prop C19
+//@   flag strict-nil
+//@   requires cwf(c)
+//@   requires @new-detached-item item != nil && !has(c.items, item.key) && item.prev == nil && item.next == nil && item.freqNode == nil
+//@   modifies all, ipos, iat
+//@   ensures @map-well-formed c.items == old(c.items) && cinvmap(c)
+//@   ensures @item-links-next ilnext(c)
+//@   ensures @item-links-prev ilprev(c)
+//@   ensures @item-links-head ilhead(c)
+//@   ensures @item-links-tail iltail(c)
+//@   ensures @item-order-unique ibuniq(c)
+//@   ensures @item-order-up ibup(c)
+//@   ensures @item-order-down ibdown(c)
+//@   ensures @item-ends cinvends(c)
+//@   ensures @node-links-next nlnext(c)
+//@   ensures @node-links-prev nlprev(c)
+//@   ensures @node-links-head nlhead(c)
+//@   ensures @node-order-unique nbuniq(c)
+//@   ensures @node-order-up nbup(c)
+//@   ensures @node-order-down nbdown(c)
+//@   ensures @head-is-lowest cinvhead(c)
+//@   ensures @admitted-with-count-one tracked(c, item) && item.freqNode.freq == 1
+
+//@ func (*Counter).evict
+//@   prop C19
+//@   flag strict-nil
+//@   let victim = c.freqHead.itemHead
+//@   requires cwf(c) && c.freqHead != nil
+//@   modifies all
+//@   ensures @map-well-formed c.items == old(c.items) && cinvmap(c)
+//@   ensures @item-links-next ilnext(c)
+//@   ensures @item-links-prev ilprev(c)
+//@   ensures @item-links-head ilhead(c)
+//@   ensures @item-links-tail iltail(c)
+//@   ensures @item-order-unique ibuniq(c)
+//@   ensures @item-order-up ibup(c)
+//@   ensures @item-order-down ibdown(c)
+//@   ensures @item-ends cinvends(c)
+//@   ensures @node-links-next nlnext(c)
+//@   ensures @node-links-prev nlprev(c)
+//@   ensures @node-links-head nlhead(c)
+//@   ensures @node-order-unique nbuniq(c)
+//@   ensures @node-order-up nbup(c)
+//@   ensures @node-order-down nbdown(c)
+//@   ensures @head-is-lowest cinvhead(c)
+//@   ensures @one-key-evicted old(has(c.items, victim.key)) && !has(c.items, victim.key) && len(c.items) == old(len(c.items)) - 1
+//@   ensures @victim-had-the-lowest-count forall k string :: old(has(c.items, k)) ==> old(c.items[k].freqNode.freq) >= old(victim.freqNode.freq)
+//@   ensures @other-keys-keep-their-count forall k string :: k != victim.key ==> has(c.items, k) == old(has(c.items, k)) && (has(c.items, k) ==> c.items[k] == old(c.items[k]) && c.items[k].freqNode == old(c.items[k].freqNode) && c.items[k].freqNode.freq == old(c.items[k].freqNode.freq))
+
+//@ func (*Counter).increment
+//@   prop C19
+//@   flag strict-nil
+//@   let cur = item.freqNode
+//@   let nxt = item.freqNode.next
+//@   let prv = item.freqNode.prev
+//@   let reuse = item.freqNode.next != nil && item.freqNode.next.freq == item.freqNode.freq + 1
+//@   requires cwf(c) && tracked(c, item)
+//@   requires @count-below-max-uint64 item.freqNode.freq < 18446744073709551615
+//@   modifies all, ipos, iat
+//@   ensures @map-well-formed c.items == old(c.items) && cinvmap(c) && forall k string :: has(c.items, k) == old(has(c.items, k)) && (has(c.items, k) ==> c.items[k] == old(c.items[k]))
+//@   ensures @item-links-next ilnext(c)
+//@   ensures @item-links-prev ilprev(c)
+//@   ensures @item-links-head ilhead(c)
+//@   ensures @item-links-tail iltail(c)
+//@   ensures @item-order-unique ibuniq(c)
+//@   ensures @item-order-up ibup(c)
+//@   ensures @item-order-down ibdown(c)
+//@   ensures @item-ends cinvends(c)
+//@   ensures @lemma-target-is-live livef(c, item.freqNode) && item.freqNode != old(item.freqNode) && item.freqNode.freq == old(item.freqNode.freq) + 1
+//@   ensures @lemma-other-nodes-keep-their-liveness forall n *freqNode :: {n.itemHead} n != old(item.freqNode) && n != item.freqNode ==> livef(c, n) == old(livef(c, n))
+//@   ensures @lemma-old-node-live-iff-not-emptied livef(c, old(item.freqNode)) == (old(item.freqNode).itemHead != nil)
+//@   ensures @lemma-target-reused-or-new (reuse ==> item.freqNode == nxt) && (!reuse ==> fresh(item.freqNode))
+//@   ensures @lemma-links-elsewhere-untouched forall n *freqNode :: {n.next} {n.prev} n != cur && n != item.freqNode && n != nxt && n != prv ==> n.next == old(n.next) && n.prev == old(n.prev)
+//@   ensures @lemma-links-when-old-node-stays cur.itemHead != nil ==> cur.next == item.freqNode && cur.prev == prv && item.freqNode.prev == cur && item.freqNode.next == ite(reuse, old(nxt.next), nxt) && (!reuse && nxt != nil ==> nxt.prev == item.freqNode && nxt.next == old(nxt.next)) && (prv != nil ==> prv.next == cur && prv.prev == old(prv.prev)) && c.freqHead == old(c.freqHead)
+//@   ensures @lemma-links-when-old-node-goes cur.itemHead == nil ==> item.freqNode.prev == prv && item.freqNode.next == ite(reuse, old(nxt.next), nxt) && (!reuse && nxt != nil ==> nxt.prev == item.freqNode && nxt.next == old(nxt.next)) && (prv != nil ==> prv.next == item.freqNode && prv.prev == old(prv.prev)) && c.freqHead == ite(old(c.freqHead) == cur, item.freqNode, old(c.freqHead))
+//@   ensures @node-links-next nlnext(c)
+//@   ensures @node-links-prev nlprev(c)
+//@   ensures @node-links-head nlhead(c)
+//@   ensures @lemma-live-nodes-were-live-or-are-the-target forall m *freqNode :: {m.freq} livef(c, m) ==> m == item.freqNode || (old(livef(c, m)) && m != cur) || (m == cur && cur.itemHead != nil)
+//@   ensures @lemma-no-live-node-between-old-and-new-count forall m *freqNode :: {m.freq} livef(c, m) ==> m.freq <= old(cur.freq) || m.freq >= old(cur.freq) + 1
+//@   ensures @lemma-unique-at-target forall m *freqNode :: {m.freq} livef(c, m) && m != item.freqNode ==> m.freq != item.freqNode.freq
+//@   ensures @lemma-up-at-target forall m *freqNode :: {m.freq} livef(c, m) && m.freq > item.freqNode.freq ==> item.freqNode.next != nil && m.freq >= item.freqNode.next.freq
+//@   ensures @lemma-down-at-target forall m *freqNode :: {m.freq} livef(c, m) && m.freq < item.freqNode.freq ==> item.freqNode.prev != nil && m.freq <= item.freqNode.prev.freq
+//@   ensures @lemma-up-at-previous-node prv != nil ==> forall m *freqNode :: {m.freq} livef(c, m) && m.freq > prv.freq ==> prv.next != nil && m.freq >= prv.next.freq
+//@   ensures @lemma-up-elsewhere forall n *freqNode, m *freqNode :: {n.next, m.freq} livef(c, n) && livef(c, m) && n != item.freqNode && n != cur && n != prv && m.freq > n.freq ==> n.next != nil && m.freq >= n.next.freq
+//@   ensures @lemma-down-at-next-node nxt != nil ==> forall m *freqNode :: {m.freq} livef(c, m) && m.freq < nxt.freq ==> nxt.prev != nil && m.freq <= nxt.prev.freq
+//@   ensures @lemma-down-elsewhere forall n *freqNode, m *freqNode :: {n.prev, m.freq} livef(c, n) && livef(c, m) && n != item.freqNode && n != cur && n != nxt && m.freq < n.freq ==> n.prev != nil && m.freq <= n.prev.freq
+//@   ensures @node-order-unique nbuniq(c)
+//@   ensures @node-order-up nbup(c)
+//@   ensures @node-order-down nbdown(c)
+//@   ensures @head-is-lowest cinvhead(c)
+//@   ensures @count-goes-up-by-one item.freqNode.freq == old(item.freqNode.freq) + 1
+//@   ensures @other-keys-keep-their-count forall k string :: has(c.items, k) && k != item.key ==> c.items[k].freqNode == old(c.items[k].freqNode) && c.items[k].freqNode.freq == old(c.items[k].freqNode.freq)
